@@ -54,6 +54,12 @@ def fission_assign_then_reduce(sig, case):
     return sig.get("op") in ("fission", "autofission") and sig.get("kind") in ("diff", "poison") and d.get("pre_assigns_what_post_reduces") and not d.get("pre_mentions_iter")
 
 
+def fission_if_condition_written(sig, case):
+    """fission / autofission split `if c: s1; s2` into `if c: s1` `if c: s2` although s1 writes
+    something (a config field, a buffer) that c reads"""
+    return sig.get("op") in ("fission", "autofission") and sig.get("kind") in ("diff", "poison") and bool(_diag(sig).get("splits_if_whose_cond_is_written"))
+
+
 def autofission_unchecked(sig, case):
     """autofission (DoFissionLoops) performs no commutativity check: the checked variant
     `fission` refuses the same split"""
